@@ -137,6 +137,49 @@ def graph_sum_obligation(k):
     return lambda pkg: run_obligation(pkg, fn)
 
 
+def graph_parallel_sum_obligation(k):
+    """A real Graph (built by its constructor) with k edges between the *same* two vertices: chi^2 is the sum over all k of them."""
+    def fn(it):
+        from ..algebra import custom_edge
+        from ..interp import sym_pose
+        ids = [Poly.const(100), Poly.const(107)]
+        verts = [it.construct("Vertex", [ids[j], sym_pose("PoseR2", "x%d" % j)]) for j in range(2)]
+        edges = []
+        for i in range(k):
+            e = custom_edge(it, list(ids) if i % 2 == 0 or k < 3 else list(reversed(ids)), None, None, None)
+            e.stubs["calc_chi2"] = (lambda i=i: Poly.var("chi2_%d" % i))
+            e.stubs["is_valid"] = lambda: True
+            edges.append(e)
+        g = it.construct("Graph", [edges, verts])
+        got = it.call_method(g, "calc_chi2", [])
+        exp = sum((Poly.var("chi2_%d" % i) for i in range(k)), Poly())
+        require_same(got, exp, "Graph.calc_chi2 over %d parallel edges (same vertex ids) is not the sum of all of them" % k)
+        return dict(edges=k, parallel=True)
+    return lambda pkg: run_obligation(pkg, fn)
+
+
+def graph_own_vertices_obligation(cls="PoseR2"):
+    """The graph's chi^2 is evaluated at the estimates of *its own* vertices: edges that arrive already bound to other vertex
+    objects with the same ids (copies, a previous graph's vertices) are bound to the graph's vertices by the constructor."""
+    def fn(it):
+        from ..interp import sym_pose
+        from ..assembly import sym_symmetric
+        from ..algebra import CDIM
+        ids = [Poly.const(100), Poly.const(107)]
+        own = [it.construct("Vertex", [ids[j], sym_pose(cls, "own%d" % j, unit=True)]) for j in range(2)]
+        foreign = [it.construct("Vertex", [ids[j], sym_pose(cls, "foreign%d" % j, unit=True)]) for j in range(2)]
+        W, z = sym_symmetric("W", CDIM[cls]), sym_pose(cls, "z", unit=True)
+        e = it.construct("EdgeOdometry", [list(ids), W, z, list(foreign)])
+        g = it.construct("Graph", [[e], own])
+        got = it.call_method(g, "calc_chi2", [])
+        ref = it.construct("EdgeOdometry", [list(ids), W, z, list(own)])
+        exp = it.call_method(ref, "calc_chi2", [])
+        require_same(got, exp, "the chi^2 of a graph whose edge was created with other vertex objects (same ids) is not evaluated at the "
+                               "graph's own vertices")
+        return dict(pose=cls)
+    return lambda pkg: run_obligation(pkg, fn)
+
+
 def run(run_, pkg, tier):
     run_.explanation = ("calc_error of the 8 built-in configurations equals, as polynomial normal forms modulo the unit-quaternion "
                         "and trigonometric relations, the checker's reference model built from homogeneous matrices and Hamilton "
@@ -169,5 +212,13 @@ def run(run_, pkg, tier):
         key = "Graph.calc_chi2/edges=%d" % k
         if run_.wants(key):
             tasks.append((key, "C02-graph-sum", graph_sum_obligation(k), "%s:%d" % (gfn._gs_module, gfn.lineno)))
+    for k in (2, 3):
+        key = "Graph.calc_chi2/parallel-edges=%d" % k
+        if run_.wants(key):
+            tasks.append((key, "C02-graph-sum", graph_parallel_sum_obligation(k), "%s:%d" % (gfn._gs_module, gfn.lineno)))
+    for cls in ("PoseR2", "PoseSE2"):
+        key = "Graph.calc_chi2/own-vertices/%s" % cls
+        if run_.wants(key):
+            tasks.append((key, "C02-graph-chi2-at-own-vertices", graph_own_vertices_obligation(cls), "%s:%d" % (gfn._gs_module, gfn.lineno)))
     run_.floor("error-model obligations", sum(1 for t in tasks if t[1] == "C02-error-model") if run_.only is None else 8, 8)
     record(run_, tasks, run_tasks(pkg, tasks))
